@@ -103,7 +103,7 @@ func (w *world) exec(o *op) string {
 		}
 		return "BTs " + coqfmt.Z(t.Physical) + " " + coqfmt.Z(t.Logical)
 	case "Global":
-		o.Dmax = int(time.Since(w.lastG).Milliseconds()) + 8
+		o.Dmax = int(time.Since(w.lastG).Milliseconds()) + 60 // + 2*RTT of the loop-back gRPC calls, generous under load
 		t, err := w.am.HandleTSORequest(tso.GlobalDCLocation, o.C)
 		w.lastG = time.Now()
 		if err != nil {
@@ -299,6 +299,49 @@ func (w *world) stress(R *res.Result, dur time.Duration) {
 	R.CountN("stress:global-answers", nglob)
 }
 
+// leaderless: the allocator of dc-2 is being moved to a member that never takes over (next-leader key written, current
+// holder resigned, as PriorityChecker does): Global requests cannot synchronise with dc-2. They may be refused, but an
+// answer must still lie above every Local timestamp returned before the request began.
+func (w *world) leaderless(R *res.Result) {
+	if err := w.am.TransferAllocatorForDCLocation("dc-2", 424242); err != nil {
+		R.Notes = append(R.Notes, "leaderless phase skipped: "+err.Error())
+		return
+	}
+	w.am.ResetAllocatorGroup("dc-2")
+	holds := func() bool {
+		ls, err := w.am.GetHoldingLocalAllocatorLeaders()
+		if err != nil {
+			return false
+		}
+		for _, l := range ls {
+			if l.GetDCLocation() == "dc-2" && l.IsAllocatorLeader() {
+				return true
+			}
+		}
+		return false
+	}
+	answered, refused := 0, 0
+	for r := 0; r < 10 && !holds(); r++ {
+		lt, err := w.am.HandleTSORequest("dc-1", 100)
+		if err != nil {
+			continue
+		}
+		gt, err := w.am.HandleTSORequest(tso.GlobalDCLocation, 1)
+		if err != nil {
+			refused++
+			continue
+		}
+		answered++
+		if gt.Physical < lt.Physical || (gt.Physical == lt.Physical && gt.Logical <= lt.Logical) {
+			R.Violate("C05:global-not-above-earlier-timestamp:dc-without-allocator-leader",
+				fmt.Sprintf("dc-2 has no allocator leader, yet a Global timestamp (%d,%d) was returned that is not above the Local timestamp (%d,%d) of dc-1 returned before the request began", gt.Physical, gt.Logical, lt.Physical, lt.Logical),
+				map[string]interface{}{"local": []int64{lt.Physical, lt.Logical}, "global": []int64{gt.Physical, gt.Logical}})
+		}
+	}
+	R.CountN("leaderless:global-answered", answered)
+	R.CountN("leaderless:global-refused", refused)
+}
+
 func main() {
 	seed := flag.Uint64("seed", 1, "")
 	n := flag.Int("n", 150, "number of generated cases")
@@ -437,6 +480,7 @@ func main() {
 			emit(w.runCase(master.Fork(uint64(k)), nil, 25))
 		}
 		w.stress(R, time.Duration(*stressMs)*time.Millisecond)
+		w.leaderless(R)
 	}
 	if err := cf.Flush(); err != nil {
 		panic(err)
